@@ -585,9 +585,16 @@ func undoAssetCode(c *types.ChangeLog, processor types.ChangeLogProcessor) error
 func NewAssetCodeStateLog(address common.Address, processor types.ChangeLogProcessor, code common.Hash, key string, newVal string) (*types.ChangeLog, error) {
 	account := processor.GetAccount(address)
 
-	oldVal, err := account.GetAssetCodeState(code, key)
+	asset, err := account.GetAssetCode(code)
 	if err != nil && err != types.ErrAssetNotExist {
 		return nil, fmt.Errorf("can't create asset code state log: %v", err)
+	}
+	// a key which does not exist yet has no old value: undo removes it again instead of leaving it with an empty value
+	var oldVal interface{} = absentProfileVal{}
+	if asset != nil {
+		if val, ok := asset.Profile[key]; ok {
+			oldVal = val
+		}
 	}
 
 	return &types.ChangeLog{
@@ -602,6 +609,11 @@ func NewAssetCodeStateLog(address common.Address, processor types.ChangeLogProce
 		},
 	}, nil
 }
+
+// absentProfileVal is the old value of a profile key which did not exist before the change
+type absentProfileVal struct{}
+
+func (absentProfileVal) String() string { return "" }
 
 func redoAssetCodeState(c *types.ChangeLog, processor types.ChangeLogProcessor) error {
 	newVal, ok := c.NewVal.(string)
@@ -620,17 +632,26 @@ func redoAssetCodeState(c *types.ChangeLog, processor types.ChangeLogProcessor) 
 }
 
 func undoAssetCodeState(c *types.ChangeLog, processor types.ChangeLogProcessor) error {
-	oldVal, ok := c.OldVal.(string)
-	if !ok {
-		log.Errorf("undoAssetCodeState expected OldVal string, got %T", c.OldVal)
-		return types.ErrWrongChangeLogData
-	}
 	extra, ok := c.Extra.(*ProfileChangeLogExtra)
 	if !ok {
 		log.Errorf("undoAssetCodeState expected Extra common.Token, got %T", c.Extra)
 		return types.ErrWrongChangeLogData
 	}
 	accessor := processor.GetAccount(c.Address)
+	if _, isAbsent := c.OldVal.(absentProfileVal); isAbsent {
+		// the key was created by this change
+		asset, err := accessor.GetAssetCode(extra.UUID)
+		if err != nil {
+			return err
+		}
+		delete(asset.Profile, extra.Key)
+		return accessor.SetAssetCode(extra.UUID, asset)
+	}
+	oldVal, ok := c.OldVal.(string)
+	if !ok {
+		log.Errorf("undoAssetCodeState expected OldVal string, got %T", c.OldVal)
+		return types.ErrWrongChangeLogData
+	}
 	return accessor.SetAssetCodeState(extra.UUID, extra.Key, oldVal)
 }
 
